@@ -65,7 +65,7 @@ func runGcsync(c *Ctx) {
 			return assignsField(ev, locked, "false") || assignsField(ev, writing, "false") || incDecField(ev, nread, token.DEC)
 		}
 		// the function itself
-		c.Walk("R12", &core.Config{}, core.Entry{Decl: d}, func(p *core.Path) {
+		c.Walk("R12", &core.Config{Follow: samePkgFollow(d.Pkg.PkgPath)}, core.Entry{Decl: d}, func(p *core.Path) {
 			g := prepare(c, p)
 			granted := false
 			releaseRan := false
@@ -81,7 +81,7 @@ func runGcsync(c *Ctx) {
 				case incDecField(ev, wwait, token.INC):
 					inc++
 					a.requireGuard("R12", fname+"/register(writeWaiting++)", g, i, true, fand(fld(wr), fnot(availW)), "the registration m.writeWaiting++")
-				case incDecField(ev, wwait, token.DEC) && ev.Frame.Parent != nil && ev.Frame.Parent.Parent == nil && ev.Frame.CS != nil:
+				case incDecField(ev, wwait, token.DEC) && !inReleaseLit(ev.Frame, lits):
 					dec++
 					a.requireGuard("R12", fname+"/deregister(writeWaiting--)[grant]", g, i, true, fand(fld(wr), availW), "m.writeWaiting-- on the slow-path grant")
 				case incDecField(ev, wwait, token.DEC):
@@ -138,7 +138,7 @@ func runGcsync(c *Ctx) {
 		// the release closures
 		for li, l := range lits {
 			name := sprintf("%s.release#%d", fname, li+1)
-			c.Walk("R16", &core.Config{}, core.Entry{Lit: l, Pkg: d.Pkg, Outer: d, Name: name}, func(p *core.Path) {
+			c.Walk("R16", &core.Config{Follow: samePkgFollow(d.Pkg.PkgPath)}, core.Entry{Lit: l, Pkg: d.Pkg, Outer: d, Name: name}, func(p *core.Path) {
 				g := prepare(c, p)
 				swapped, branched := false, false
 				for i, ev := range p.Events {
@@ -211,4 +211,16 @@ func runGcsync(c *Ctx) {
 		})
 	}
 	_ = types.Typ
+}
+
+// inReleaseLit reports whether a frame is (inside) one of the release closures.
+func inReleaseLit(fr *core.Frame, lits []*ast.FuncLit) bool {
+	for f := fr; f != nil; f = f.Parent {
+		for _, l := range lits {
+			if f.Lit == l {
+				return true
+			}
+		}
+	}
+	return false
 }
